@@ -392,7 +392,7 @@ func (r *runner) bulk(bl kvi.KVBulkWrite) error {
 	return nil
 }
 
-var frameRe = regexp.MustCompile(`(?m)^(github\.com/bmeg/grip/[^\s(]*)\(`)
+var frameRe = regexp.MustCompile(`(?m)^(github\.com/bmeg/grip/\S+)\([^()]*\)$`)
 
 func site(msg, stack string) string {
 	m := frameRe.FindStringSubmatch(stack)
